@@ -6,6 +6,8 @@ INVARIANT StringInv
 INVARIANT MismatchInv
 INVARIANT Emit
 INVARIANT CollectInv
+INVARIANT CollectRepInv
+INVARIANT MeanConvInv
 INVARIANT EmitCollect
 INVARIANT AttrInv
 INVARIANT EmitAttr
